@@ -576,7 +576,7 @@ func runService(n *c14Node, db sdkdb.DB) (*indexer.KVIndexer, func()) {
 
 // waitReady waits until a freshly started service has caught up with the node (it marks the indexer ready).
 func waitReady(idx *indexer.KVIndexer) bool {
-	for i := 0; i < 500; i++ {
+	for i := 0; i < 3000; i++ {
 		if idx.IsReady() {
 			return true
 		}
@@ -587,7 +587,7 @@ func waitReady(idx *indexer.KVIndexer) bool {
 
 // waitIndexed waits until the service has been handed the block at height (or the process is dead, or gives up).
 func waitIndexed(idx *indexer.KVIndexer, height int64, dead *bool) bool {
-	for i := 0; i < 500; i++ {
+	for i := 0; i < 3000; i++ {
 		if dead != nil && *dead {
 			return true
 		}
@@ -608,6 +608,18 @@ func genC14Crash(t *rapid.T) c14Case {
 
 func runC14Crash(cs c14Case) *Outcome {
 	o := &Outcome{}
+	// a wait that gives up (busy machine) makes the case inconclusive, never a violation
+	slow := false
+	waitReady := func(idx *indexer.KVIndexer) bool {
+		ok := waitReady(idx)
+		slow = slow || !ok
+		return ok
+	}
+	waitIndexed := func(idx *indexer.KVIndexer, height int64, dead *bool) bool {
+		ok := waitIndexed(idx, height, dead)
+		slow = slow || !ok
+		return ok
+	}
 	n, err := newC14Node(cs.World)
 	if err != nil {
 		o.Excluded = "world rejected: " + truncS(err.Error(), 80)
@@ -706,6 +718,10 @@ func runC14Crash(cs c14Case) *Outcome {
 	stopRef()
 	stop1()
 	stop2()
+	if slow {
+		o.Excluded = "a service did not catch up within its wait budget (busy machine): nothing compared"
+		return o
+	}
 	if !dead {
 		o.label("crash:not-reached")
 		return o
